@@ -444,8 +444,38 @@ fn check_ransac_large(r: &mut Report) {
     }
 }
 
+// ---------------------------------------------------------------- round 4b: contamination just OUTSIDE the tolerance band
+/// exact samples of the generating circle on a 1.6 rad arc + outliers radially offset by 1.4 .. 10 tolerances (alternating
+/// inside / outside): wrong candidates through two samples and an outlier are supported by a majority of the points, but
+/// by fewer than the generating circle
+fn check_ransac_near_band(r: &mut Report) {
+    const CLAUSE: &str = "seeded RANSAC circle has at least as many inliers as the generating circle (contamination a few tolerances off the circle)";
+    for (cx, cy, rad) in [(2.0, -1.0, 10.0), (-3.0, 4.0, 4.0)] {
+        let tol = 0.005 * rad;
+        for n_in in [20usize, 26] { for n_out in [9usize, 11, 13] { for base in [0.007, 0.009, 0.012] { for interleave in [false, true] { for rot in 0..8usize {
+            let mut pts: Vec<Point2> = (0..n_in).map(|i| { let a = 0.3 + i as f64 * (1.6 / (n_in as f64 - 1.0)); Point2::new(cx + rad * a.cos(), cy + rad * a.sin()) }).collect();
+            for j in 0..n_out {
+                let a = 0.35 + j as f64 * (1.5 / n_out as f64);
+                let off = if j % 2 == 0 { 1.0 } else { -1.0 } * base * rad * (1.0 + 0.3 * j as f64);
+                let q = Point2::new(cx + (rad + off) * a.cos(), cy + (rad + off) * a.sin());
+                if interleave { pts.insert((2 * j + 1).min(pts.len()), q); } else { pts.push(q); }
+            }
+            let n = pts.len();
+            pts.rotate_left((rot * 7) % n);
+            let gen = Circle2::new(cx, cy, rad);
+            let count = |c: &Circle2| pts.iter().filter(|p| c.distance_to(p).abs() < tol).count();
+            let want = count(&gen);
+            r.case();
+            let res = Circle2::ransac(&pts, tol, None, None, None);
+            r.check(want == n_in && match &res { Ok(c) => count(c) >= want, Err(_) => false }, CLAUSE,
+                || format!("ransac({:?}: {} exact samples of circle ({:?}, {:?}, r {:?}) on a 1.6 rad arc + {} outliers radially offset by {:?} r * (1 + 0.3 j), alternating sides, {}, list rotated by {}; tol {:?}, default iterations) -> {:?}; generating circle has {} inliers",
+                    pts.iter().map(|p| (p.x, p.y)).collect::<Vec<_>>(), n_in, cx, cy, rad, n_out, base, if interleave { "interleaved with the samples" } else { "appended" }, (rot * 7) % n, tol, res.as_ref().map(|c| (c.x(), c.y(), c.r(), count(c))).map_err(|_| "Err"), want));
+        } } } } }
+    }
+}
+
 pub fn run() -> Option<Report> {
-    let mut r = Report::new("polynomial sizes K=2..=6 x 6 abscissa sets (asymmetric integers, dyadic offset from zero, uneven both signs, positive side, 7 values within 4e-4 of 1.0 [K=2], 9 values within 0.07 of -2 [K<=3]) x {no weights, 2 non-uniform positive weight vectors} x {3 exact coefficient vectors, 2 arbitrary data vectors}; Series1 lines on 5 abscissa sets incl. clustered distinct values x 5 data vectors; three-point circles on all ordered triples of 10 points with |det| >= 1 and on 6 lines x all ordered triples of 8 parameters (exactly collinear and collinear up to rounding); circle fit on 4 circles x 6 arcs (60..360 degrees, 40 samples) x 6 guesses (centre within 0.16 r, radius within 15%) x {exact, perturbed 2% r, perturbed 8% r}; RANSAC on 3 contaminated sample sets (36 inliers + 8/12/18 outliers); ROUND 2: polynomial sizes K=2..=6 on {K, K+1, 8} distinct integer abscissae with ordinates that are exactly 0.0 (exact samples of polynomials with 1 / K-1 roots at the abscissae, 2 data vectors with 3..5 zeros) x {no weights, positive weights, weights with one 0.0 [more than K samples]}, a panic counts as a failing input; tightly clustered distinct dyadic abscissae: six values k/256 in [0, 0.02] (K <= 3, coefficient tolerance 1e-7) and four values {2,3,4,6}*2^-21 in [9.5e-7, 2.9e-6] (K = 2, tolerance 1e-9), also for Series1; circle fit from exactly 3 / 4 / 5 samples on 5 circles (r = 2.5e-4, 1e-3, 0.125) x 4 arcs (60 .. 288 degrees) x 9 guesses (ring of round 1 + concentric with the radius off by 15% / 25%) x {All, Gaussian(3.0)}; exactly representable samples (integer points of x^2+y^2=25, shifted / scaled by 1/16, 5 subsets of 3..12 points) x 5 guesses (4 concentric with a wrong / the right radius) x {All, Gaussian(3.0), Gaussian(2.0)}; the 40-sample exact arcs in Gaussian(3.0) mode; RANSAC on the 12 integer points of a radius-5 circle + 7 outliers with min_r / max_r exactly 5.0 (6 windows x 2 centres); ROUND 4: RANSAC on LARGE inputs (2000 / 3000 / 5000 points: 35% exact samples of the generating circle, 25% of a smaller decoy circle, the rest scattered; 2 circle pairs) whose ORDER is correlated with circle membership - interleaved with period len/1000 (decoy samples on one residue class 0 / 1 / period-1, generating samples on the others) and 3 block layouts (generating samples first / last) - x {default iterations, 400 iterations with a radius window holding both circles}, tol 1e-3");
+    let mut r = Report::new("polynomial sizes K=2..=6 x 6 abscissa sets (asymmetric integers, dyadic offset from zero, uneven both signs, positive side, 7 values within 4e-4 of 1.0 [K=2], 9 values within 0.07 of -2 [K<=3]) x {no weights, 2 non-uniform positive weight vectors} x {3 exact coefficient vectors, 2 arbitrary data vectors}; Series1 lines on 5 abscissa sets incl. clustered distinct values x 5 data vectors; three-point circles on all ordered triples of 10 points with |det| >= 1 and on 6 lines x all ordered triples of 8 parameters (exactly collinear and collinear up to rounding); circle fit on 4 circles x 6 arcs (60..360 degrees, 40 samples) x 6 guesses (centre within 0.16 r, radius within 15%) x {exact, perturbed 2% r, perturbed 8% r}; RANSAC on 3 contaminated sample sets (36 inliers + 8/12/18 outliers); ROUND 2: polynomial sizes K=2..=6 on {K, K+1, 8} distinct integer abscissae with ordinates that are exactly 0.0 (exact samples of polynomials with 1 / K-1 roots at the abscissae, 2 data vectors with 3..5 zeros) x {no weights, positive weights, weights with one 0.0 [more than K samples]}, a panic counts as a failing input; tightly clustered distinct dyadic abscissae: six values k/256 in [0, 0.02] (K <= 3, coefficient tolerance 1e-7) and four values {2,3,4,6}*2^-21 in [9.5e-7, 2.9e-6] (K = 2, tolerance 1e-9), also for Series1; circle fit from exactly 3 / 4 / 5 samples on 5 circles (r = 2.5e-4, 1e-3, 0.125) x 4 arcs (60 .. 288 degrees) x 9 guesses (ring of round 1 + concentric with the radius off by 15% / 25%) x {All, Gaussian(3.0)}; exactly representable samples (integer points of x^2+y^2=25, shifted / scaled by 1/16, 5 subsets of 3..12 points) x 5 guesses (4 concentric with a wrong / the right radius) x {All, Gaussian(3.0), Gaussian(2.0)}; the 40-sample exact arcs in Gaussian(3.0) mode; RANSAC on the 12 integer points of a radius-5 circle + 7 outliers with min_r / max_r exactly 5.0 (6 windows x 2 centres); ROUND 4: RANSAC on LARGE inputs (2000 / 3000 / 5000 points: 35% exact samples of the generating circle, 25% of a smaller decoy circle, the rest scattered; 2 circle pairs) whose ORDER is correlated with circle membership - interleaved with period len/1000 (decoy samples on one residue class 0 / 1 / period-1, generating samples on the others) and 3 block layouts (generating samples first / last) - x {default iterations, 400 iterations with a radius window holding both circles}, tol 1e-3; RANSAC with contamination just outside the tolerance band: 20 / 26 exact samples on a 1.6 rad arc + 9 / 11 / 13 outliers radially offset by 1.4 .. 10 tolerances on alternating sides (3 base offsets, appended or interleaved, the list rotated by 8 amounts, 2 circles; 576 inputs), default iterations");
     for s in xsets().iter() {
         check_poly::<2>(&mut r, s); check_poly::<3>(&mut r, s); check_poly::<4>(&mut r, s); check_poly::<5>(&mut r, s); check_poly::<6>(&mut r, s);
     }
@@ -460,6 +490,7 @@ pub fn run() -> Option<Report> {
     check_circle_fit_round2(&mut r);
     check_ransac_round2(&mut r);
     check_ransac_large(&mut r);
+    check_ransac_near_band(&mut r);
     let _ = close(0.0, 0.0);
     Some(r)
 }
